@@ -60,25 +60,37 @@ SPEC = {
                 'HomeChain.GetSupportedChainsForPeer answers are an oracle (scripted fake); fChain is an input (the plugin reads it from its local home-chain view)',
                 'libocr delivers at most one observation per oracle and only observations that passed ValidateObservation'],
     'assumptions': ['observations are decodable JSON (decode errors are C13)'],
-    'level_text': 'Proof: Coq theorems over the executable model of ValidateObservation and the five merges: every merged commit '
-                  'report (f of the DESTINATION, key = its source chain: repairs of F75) / message / ready token slot / nonce / costly id has at least f+1 distinct reporting oracles of the identical '
-                  'item and no validated observation votes twice for one item, for all fChain maps and all validated observation lists '
-                  'with distinct oracles; items with that support are always present and the merge never fails on validated observations '
-                  '(C07_non_blocking at full strength after the F13d repair), except that a token slot index without support makes a '
-                  'message\'s token data not ready (recorded F13e); refutation theorems for the code before the F13a/F13c/F13d repairs. Correspondence: ValidateObservation + getConsensusObservation against the model on generated DONs every run. '
-                  'System level (Model/ExecSys.v = Plugin.Outcome composed from the C07 / C08 models and the state machine, Proofs/ExecSysP.v): C07_used_needs_quorum_cycle - for every '
-                  'cycle GetCommitReports -> GetMessages -> Filter of validated observation lists: a message in the Filter round\'s execute report has (i) its commit report (full item) '
-                  'reported by f_dest+1 distinct oracles in round 1 under the key of its own source chain (repairs of F75; before them: f of the filing key, key not tied to the report - C07_commit_unfixed_refuted, C09_cycle_liveness_poisoned_unfixed_refuted), carried '
-                  'unchanged through round 2, (ii) itself reported by f_k+1 under its source chain key in round 2, (iii) ready token data whose slots have f_k+1 reporters '
-                  '(C07_token_data_cycle: of its own sequence number, by counting, when the agreed commit data carried no token data - the builder compares list lengths only), '
-                  'fewer than f_dest+1 costly flags (C07_not_costly_cycle), (iv) a sequenced message\'s on-chain nonce reported by f_dest+1 in round 3; C07_cycle_nonvacuous. '
-                  'Correspondence of exec_round with real long-lived plugins, round by round, incl. deviating oracles: sinks ExecSys_cycle_*',
-    'level_note': 'Trusted: Coq kernel, hand-written model, differential harness, interning of the %v identity. No axioms. '
-                  'Two valid items with one map key (same sequence number / same sender) are stored by Go map order (F17, property C10): '
-                  'the check accepts any possible assignment.',
-    'modelled': 'validateObserverReadingEligibility, validateObserverDataEligibility, validateObservedSequenceNumbers, validateMessageKeys, validateObservedChains, validateCommitReportKeys, merge{Commit,Message,Token,Nonce}Observations (commit reports at the destination threshold), '
-                'mergeCostlyMessages, getConsensusObservation; JSON codec and home-chain lookups are inputs. System level (Model/ExecSys.v): Plugin.Outcome (state decoding, '
-                'getConsensusObservation, PluginState.Next, getCommitReportsOutcome + dropConflictingReports (repair of F76), getMessagesOutcome + observedSeqNumsInRange, getFilterOutcome -> selectReport + report builder, '
-                'NewOutcome sorting, the empty-outcome rule), GetValid\'s ascending-id order, a history of rounds as a fold (a failed round commits nothing); not modelled: contract discovery, '
-                'Plugin.Observation (observations are inputs), the nil outcome of a plugin whose contracts are not initialised',
+    'level_text': 'Proof: 43 closed Coq theorems. 20 property theorems over the executable model of ValidateObservation and the five merges, for all fChain maps and all '
+                  'validated observation lists with distinct oracles: every merged commit report (f of the DESTINATION, key = its own source chain), message, ready token '
+                  'slot, nonce and costly id has at least f+1 distinct reporters of the identical item and no validated observation votes twice for one item (C07_commit, '
+                  '_message, _token, _nonce, _costly); an item with that support is always present and the merge never fails on validated observations (C07_*_complete, '
+                  'C07_non_blocking at full strength since repair F13d). System level (ExecSys: Plugin.Outcome composed from the merge, pending and report-builder '
+                  'models): C07_used_needs_quorum_cycle - a message in the execute report of a Filter round has its commit report agreed by f_dest+1 oracles under its '
+                  'own source chain in round 1, its content by f_k+1 in round 2, every token-data slot by f_k+1, its nonce by f_dest+1 in round 3, and fewer than '
+                  'f_dest+1 costly flags (C07_token_data_cycle, C07_not_costly_cycle, C07_cycle_nonvacuous). Unrepaired code refuted: F13 (one oracle reaching f+1 '
+                  "alone), F13d, F75 (reports counted at the f of the filing key), costly ids; F13e (an extra token slot from one oracle makes a message's token data not "
+                  'ready, C07_token_non_blocking_refuted) is a known finding, shown not repairable at validation. Judge soundness (23 C07_judge_*): for the 3 function '
+                  "sinks and the cycle sinks the executable property accepts the model's output (proved in general for whole histories, C07_judge_sys_model_passes) and "
+                  'implies the Prop-level clauses, clause by clause. Correspondence, every run: the real ValidateObservation + getConsensusObservation and Plugin.Outcome '
+                  'on generated DONs; four real long-lived execute plugins driven through whole cycles with a Byzantine oracle, f+1 colluders, lagging readers and the '
+                  "home-chain f map moving between rounds, every round judged against exec_round with that round's f map (ExecSys_cycle_*). Translation tie (4 theorems, "
+                  'C07_gen.v): FPlus1, GteFPlusOne, SeqNumRange.Overlaps. Partial: two valid items under one map key are stored by Go map order (F17 / C10), so '
+                  'completeness is judged on the key only; the cycle judge has no class for F14 (the cycle harness never reaches the size / gas limits).',
+    'level_note': "Trusted: Coq kernel, hand-written model and theorem statements, differential harness, leaf translator. Specific: item identity is the implementation's "
+                  'own id function (sha3 of the %v rendering, TokenDataHash) - the harness interns the same rendering, other item fields are functions of it; '
+                  'HomeChain.GetSupportedChainsForPeer answers are a scripted fake and fChain is an input (the plugin reads it from its local home-chain view); '
+                  'observations are decodable JSON (decode errors are C13); Plugin.Observation is not part of this model (observations are inputs), nor is contract '
+                  'discovery. libocr modelled, not verified: at most one observation per oracle, only validated observations reach Outcome, ObservationQuorum = F+1 is '
+                  'checked (sink C07_quorum). Known finding F13e is reported as KNOWN-FINDING (class 2). No axioms.',
+    'technique': 'Coq theorems (soundness + completeness of five f+1 merges; three-round cycle composition ExecSys) over a hand-written Gallina model; differential '
+                 'correspondence with proved judge on function level and on four long-lived execute plugins per cycle history; FPlus1 / GteFPlusOne / Overlaps '
+                 're-translated from Go (C07_gen.v)',
+    'modelled': 'validateObserverReadingEligibility, validateObserverDataEligibility, validateObservedSequenceNumbers, validateMessageKeys, validateObservedChains, '
+                'validateCommitReportKeys, merge{Commit,Message,Token,Nonce}Observations (commit reports at the destination threshold), mergeCostlyMessages, '
+                'getConsensusObservation; JSON codec and home-chain lookups are inputs. System level (Model/ExecSys.v): Plugin.Outcome (state decoding, '
+                'getConsensusObservation, PluginState.Next, getCommitReportsOutcome + dropConflictingReports (repair of F76), getMessagesOutcome + '
+                "observedSeqNumsInRange, getFilterOutcome -> selectReport + report builder, NewOutcome sorting, the empty-outcome rule), GetValid's ascending-id order, "
+                'a history of rounds as a fold (a failed round commits nothing); not modelled: contract discovery, Plugin.Observation (observations are inputs), the '
+                'nil outcome of a plugin whose contracts are not initialised. Translated from source per run: consensus.FPlus1, GteFPlusOne, SeqNumRange.Overlaps '
+                '(C07_gen.v)',
 }
